@@ -110,21 +110,24 @@ PROPS["C15"] = {
 }
 
 PROPS["C03"] = {
-    "imports": ["NsyncVerif.Props.C03", "NsyncVerif.Proofs.VC", "NsyncVerif.Props.C03Once", "NsyncVerif.Props.C03Counter"],
+    "imports": ["NsyncVerif.Props.C03", "NsyncVerif.Proofs.VC", "NsyncVerif.Props.C03Once", "NsyncVerif.Props.C03Counter", "NsyncVerif.Props.C03Signal"],
     "theorems": ["NsyncVerif.Props.C03." + t for t in ["C03_release_chain", "C03_mutex_handoff", "C03_release_recorded", "C03_released_monotone",
                  "C03_unlock_happens_before_lock", "C03_orders_required"]] +
                 ["NsyncVerif.VC." + t for t in ["vc_mono_run", "acq_sees_relc", "rel_records", "release_chain_run", "message_passing",
                  "relaxed_load_no_edge", "relaxed_store_breaks"]] +
                 ["Once." + t for t in ["C03_once_invariant", "C03_once", "C03_once_state", "C03_once_needs_acquire"]] +
-                ["Counter." + t for t in ["C03_counter_machine", "C03_counter_adds_chain", "C03_counter", "C03_counter_carrier", "C03_counter_no_other_edges", "C03_counter_value", "C03_counter_add"]],
-    "layers": ["vc", "mux", "once", "counter"],
-    "tie": ["NsyncVerif.Proofs.TieOrders", "NsyncVerif.Proofs.TieSites"],
+                ["Counter." + t for t in ["C03_counter_machine", "C03_counter_adds_chain", "C03_counter", "C03_counter_carrier", "C03_counter_no_other_edges", "C03_counter_value", "C03_counter_add"]] +
+                ["NsyncVerif.CvFix." + t for t in ["C03_signal", "C03_signal_waitn", "C03_signal_before_call", "C03_signal_wait", "C03_signal_dequeue", "C03_signal_invariant",
+                 "C03_cv_spinlock", "C03_signal_machine", "C03_signal_needs_release_store", "C03_signal_needs_acquire_load", "C03_signal_waitn_needs_acquire_load",
+                 "C03_signal_waitn_needs_acquire_loop", "C03_signal_transfer_partial", "C03_signal_transfer_released"]],
+    "layers": ["vc", "mux", "once", "counter", "cv"],
+    "tie": ["NsyncVerif.Proofs.TieOrders", "NsyncVerif.Proofs.TieSites", "NsyncVerif.Proofs.TieSignal"],
     "harness_args": ["plain=1"],     # log nsync's own plain accesses to registered objects: raced-checked by the vc layer
     "oracles": {"vc"},
     "plan": {"quick": [("core", 80, 6), ("cv", 50, 6), ("muwait", 50, 6), ("once", 60, 6), ("ctr", 60, 6)],
              "thorough": [("core", 800, 12), ("cv", 500, 12), ("muwait", 500, 12), ("once", 600, 12), ("ctr", 600, 12), ("mixed", 500, 12)]},
     "level_text": "Kernel-checked theorems: (1) over the MuX protocol with declared orders and ghost vector clocks — the release clock of the mutex word always covers every past release point (C03_release_chain), so whatever a thread did before giving up its share happens before the continuation of every thread that later comes to own a share, for all interleavings and any number of threads, using only acquire/release strength and the C++20 release-sequence rule (C03_unlock_happens_before_lock); the acceptor requires acquire on every share/spinlock-taking write, release on every share/spinlock-releasing write and release on the plain stores (C03_orders_required); (2) over the generic vector-clock machine — the message-passing theorem (release write, then only RMWs / dominated release stores, then acquire read ⇒ happens-before); (3) over the PRODUCT of the Once acceptor with the clock machine — the end of the once-function happens before every nsync_run_once* return, for all accepted traces (C03_once), with the negative control that a relaxed final load carries no edge; (4) over the product of the Counter acceptor with the clock machine — the pre-CAS clock of the zeroing add and of every add before it is below the clock of every nsync_counter_wait that returns 0; the carrier is the waiter's own acquire load of the value on every path, never the semaphore or the counter mutex (C03_counter, C03_counter_carrier, C03_counter_no_other_edges). Tied to the code by lockstep: every atomic operation of every explored execution goes through the vc layer (which also checks the five hand-offs of the statement on the real executions: data-race detector for mutex-protected client data AND for nsync's own plain fields (compiler-instrumented accesses to queue links, waiter records, note and counter fields), once end→return, note set→observation, counter zero→wait return, signal→woken return) and the mutex word's operations through MuX's order checks.",
-    "level_note": "The mutex, once and counter edges are theorems (products of the layer acceptors with the clock machine). The note and the cv-signal edges are so far covered by the generic message-passing theorem plus the vc layer's per-execution checks (their layer models are under construction): partial. Orders of sites no explored schedule reaches are not covered by lockstep. SC interleavings only, as the property specifies.",
+    "level_note": "The mutex, once, counter and cv-signal edges are theorems (products of the layer acceptors with the clock machine; the signal edge over the CvFix model for nsync_cv_wait* and nsync_wait_n, its site orders tied to the regenerated site table by Tie.signal_sites_tie). Still partial: (a) the note edge is covered by the generic message-passing theorem plus the vc layer's per-execution checks only; (b) for waiters a signal TRANSFERS to the mutex queue the theorem stops at the transfer (C03_signal_transfer_partial: the waker's clock is in the release clock of the mutex word) — the final wake-up is the mutex unlock path, an edge of the mutex layer (C03_unlock_happens_before_lock), and the composition of the two layers is not a theorem. Orders of sites no explored schedule reaches are not covered by lockstep. SC interleavings only, as the property specifies.",
 }
 
 MUQ = "NsyncVerif.MuQ."
@@ -220,3 +223,67 @@ PROPS["C19"] = {
     "level_text": "Kernel-checked theorems over the Note and Counter models: on the malloc-NULL path nsync_note_new / nsync_counter_new return NULL after zero further operations, the state of every existing object — in particular the intended parent — is exactly unchanged (s3 = s), and every continuation therefore runs identically (C19_parent_usable). Tied to the code by lockstep: scenarios that build small note trees and counters with the harness's fail-the-k-th-allocation switch failing each constructor allocation in turn (the forest digest before = after; the acceptors take the NULL branch).",
     "level_note": "Only the constructors' allocations are in scope (the property's quantifier): the waiter pool's unchecked malloc in common.c and nsync_wait_n's unchecked malloc for more than 4 objects are outside C19; scenarios in which the failed allocation is one of those are generated with the failure index restricted to constructor allocations.",
 }
+
+
+WN = "WaitN."
+PROPS["C11"] = {
+    "imports": ["NsyncVerif.Props.C11", "NsyncVerif.Props.C04Fix"],
+    "theorems": [WN + t for t in ["C11_index_ready", "C11_index_ready_first", "C11_timeout", "C11_short_circuit", "C11_cleanup", "C11_cleanup_ret",
+                 "C11_mutex_marks", "C11_mutex", "C11_heap_path", "qinv_of_reachable", "ulife_of_reachable", "dui_of_reachable"]] +
+                ["NsyncVerif.CvFix.C04_outcome", "NsyncVerif.CvFix.C04_waker_unlinked_is_ready"],
+    "layers": ["waitn", "cv", "mux"],
+    "oracles": {"waitn-ready", "waitn-missed", "early-timeout", "dead-object", "dead-stack", "stuck", "steplimit", "panic", "crash", "exclusion", "exclusion-ann"},
+    "plan": {"quick": [("waitn", 150, 8), ("waitn_rep", 80, 8), ("waitn_cv", 60, 8), ("waitn_f3", 60, 8), ("waitn_mon", 60, 10)],
+             "thorough": [("waitn", 1500, 16), ("waitn_rep", 800, 16), ("waitn_cv", 600, 16), ("waitn_f3", 600, 16), ("waitn_mon", 600, 20)]},
+    "extra_corpus": ["C13"],
+    "harness_args": ["checkplain=1"],
+    "level_text": "Kernel-checked theorems over the WaitN model (wait.c statement by statement together with the enqueue / ready_time / dequeue functions of notes, counters and — as repaired by 3518d42 — condition variables, on-stack and malloc'ed record arrays, any number of callers and wakers): a returned index < count names an object that is ready (note notified or expired, counter zero, cv record unlinked by a waker for this call) and is the FIRST object whose dequeue reported 'no longer enqueued' (C11_index_ready, C11_index_ready_first); count is returned only with the deadline expired and every dequeue reporting 'still enqueued', or on the no-registration fast path with a past deadline (C11_timeout, C11_short_circuit); every registration is removed by its owner before the return and no record is left on any queue or waker's list (C11_cleanup, C11_cleanup_ret); the mutex is released only after registration on all count objects and re-acquired before the return (C11_mutex_marks, C11_mutex); heap bookkeeping balances (C11_heap_path). Tied to the code by lockstep replay of the waitn / waitn_rep / waitn_cv / waitn_f3 families through the WaitN and CvFix acceptors, with implementation-side oracles on every return (index against object state, count against the virtual clock and against objects ready at call time, liveness of every record any thread touches).",
+    "level_note": "NOT proved: 'does not keep sleeping after one becomes ready' (C11_no_oversleep_full is kept as a definition; it needs semaphore-token accounting); on the implementation side it is checked as termination of every explored execution (oracle stuck). malloc failure on the heap path is not handled by wait.c (the model rejects a NULL result; not generated). Sampled correspondence.",
+}
+
+PROPS["C13"] = {
+    "imports": ["NsyncVerif.Props.C13Mu", "NsyncVerif.Props.C13CvFix", "NsyncVerif.Props.C13WaitN"],
+    "theorems": ["NsyncVerif.MuQ." + t for t in ["C13_release_point", "C13_before_release_point", "C13_release_is_last_needed"]] +
+                ["NsyncVerif.CvFix." + t for t in ["C13_record_touch", "C13_record_touch_nw_full_true", "C13_listed_owner_waits", "C13_listed_alive",
+                 "C13_owner_returns_clean", "C13_owner_returns_clean_waitn", "C13_idle_not_touched", "C13_late_V_touches_nothing"]] +
+                [WN + t for t in ["C13_record_lifetime", "C13_owner_access", "C13_record_lifetime_post", "C13_owner_returns_after", "C13_owner_returns_after_stack"]],
+    "layers": ["muq", "mux"],
+    "family_layers": {"refcount": ["muq", "mux"], "core": ["muq", "mux"], "waitn": ["waitn", "cv", "mux"], "waitn_rep": ["waitn", "cv", "mux"], "waitn_cv": ["waitn", "cv", "mux"],
+                      "waitn_f3": ["waitn", "cv", "mux"], "cv": ["cv", "mux"], "muc": ["muc", "mux"], "cancel_only": ["cv", "muc", "mux"], "corpus": ["waitn", "cv", "mux"]},
+    "oracles": {"dead-object", "dead-stack", "stuck", "steplimit", "panic", "crash", "exclusion", "exclusion-ann"},
+    "plan": {"quick": [("refcount", 150, 10), ("waitn", 100, 8), ("waitn_rep", 80, 8), ("waitn_f3", 60, 8), ("cv", 80, 8), ("muc", 40, 6), ("cancel_only", 80, 8)],
+             "thorough": [("refcount", 1500, 20), ("waitn", 1000, 16), ("waitn_rep", 800, 16), ("waitn_f3", 600, 16), ("cv", 800, 16), ("muc", 400, 12), ("cancel_only", 800, 16)]},
+    "harness_args": ["checkplain=1"],
+    "level_text": "Kernel-checked theorems: (mutex, MuQ model) once a thread inside nsync_mu_unlock / runlock / unlock_slow owns neither a share nor the spinlock, no later step of that call touches the mutex, and the step that crosses that point is a successful CAS on the word (C13_release_point, C13_release_is_last_needed): whoever acquires afterwards and frees the memory races with nothing; (cv, CvFix model of the repaired cv.c) every access to a waiter record by a thread other than its owner happens while the record is queued or on that waker's private list with its owner still inside the wait, for pooled records and for nsync_wait_n records alike, and the owner returns only after the record is on no list (C13_record_touch, C13_record_touch_nw_full_true, C13_owner_returns_clean[_waitn]); the V that follows the waker's last store touches no record (C13_late_V_touches_nothing); (nsync_wait_n, WaitN model) every access by a non-owner to a record of notes / counters / cvs is to a registered record, and at the return no record of the call is registered, queued or on a waker's list (C13_record_lifetime, C13_owner_returns_after). Tied to the code by lockstep (refcount / waitn* / cv / muc families through the matching acceptors) and by the runtime's liveness tracking: every atomic AND plain access (TSan instrumentation) of every explored execution is checked against reclaimed heap blocks, reclaimed mutexes and dead stack records (oracles dead-object, dead-stack).",
+    "level_note": "The on-stack record of a CANCELLABLE cv / mu wait (sem_wait.c: nw registered on the cancel note) has no Lean model yet: for it only the runtime oracle (dead-object on the note-notify path, families cv and muc with cancel notes) decides — partial. Defect F3 (found by this property's oracle) is repaired in /repo; the pre-repair model and refutation are kept (Props/C13Cv.lean). Sampled correspondence.",
+}
+
+MC = "NsyncVerif.MuC."
+PROPS["C05"] = {
+    "imports": ["NsyncVerif.Props.C05CvFix", "NsyncVerif.Props.C05Mu"],
+    "theorems": ["NsyncVerif.CvFix." + t for t in ["C05_result_is_outcome", "C05_timedout", "C05_cancelled", "C05_no_resleep", "C05_not_sleeping"]] +
+                [MC + t for t in ["C05_mode", "C05_mode_recorded", "C05_mu_wait_0", "C05_timedout", "C05_cancelled", "C05_no_resleep_partial", "C05_timed_p_deadline", "C05_no_resleep_full_refuted"]],
+    "layers": ["cv", "mux"],
+    "family_layers": {"cv": ["cv", "mux"], "cv_raw": ["cv", "mux"], "muwait": ["muc", "mux"], "muc": ["muc", "mux"], "cancel_only": ["cv", "muc", "mux"]},
+    "oracles": {"early-timeout", "bad-cancel", "bad-result", "muwait-result", "swallowed-wakeup", "exclusion", "exclusion-ann", "stuck", "steplimit", "panic", "crash", "dead-object"},
+    "plan": {"quick": [("cv", 120, 8), ("cv_raw", 40, 8), ("muwait", 100, 8), ("muc", 80, 6), ("cancel_only", 120, 10)],
+             "thorough": [("cv", 1200, 16), ("cv_raw", 400, 16), ("muwait", 1000, 16), ("muc", 800, 12), ("cancel_only", 1200, 20)]},
+    "harness_args": ["checkplain=1"],
+    "level_text": "Kernel-checked theorems. cv half (CvFix model of cv.c + sem_wait.c): the value returned by nsync_cv_wait_with_deadline is the recorded outcome of the sleep (C05_result_is_outcome); ETIMEDOUT only with the deadline reached on the model clock, ECANCELED only with the cancel note notified (C05_timedout, C05_cancelled); once the outcome is non-zero the thread performs no further semaphore wait in this call before re-acquiring the mutex (C05_no_resleep, C05_not_sleeping). mu_wait half (MuC model of mu_wait.c on top of the mutex core): the call returns holding the mutex in the mode it was called with (C05_mode), returns 0 exactly when the condition is true at the return (C05_mu_wait_0), ETIMEDOUT / ECANCELED only for the stated reason (C05_timedout, C05_cancelled), a timed P never outlasts the deadline (C05_timed_p_deadline), and after a non-zero outcome no P is issued in that pass of the wait loop (C05_no_resleep_partial). Tied to the code by lockstep (cv / cv_raw families through CvFix, muwait / muc families through MuC, with cancel notes fresh / already notified / expiring, reader and writer mode) and by the interpreter's assertions on every wait return (shadow lock mode, virtual clock vs deadline, note flag, value of the condition).",
+    "level_note": "The literal reading 'no further semaphore wait' is REFUTED for nsync_mu_wait_with_deadline (C05_no_resleep_full_refuted: a timed-out waiter re-acquires through lock_slow and may sleep there; with the condition false it goes round the loop again with an already expired deadline) — this is consistent with the property's own wording ('returns as soon as the mutex can be re-acquired'), so it is not a finding. 'Holding the lock in the same mode' for the cv half rests on the mutex layer (C01/C02) and the interpreter's shadow mode. The cancel note is abstract in both models. Fair termination is a paper step; termination of every explored execution is checked (oracle stuck).",
+}
+
+PROPS["C06"] = {
+    "imports": ["NsyncVerif.Props.C06"],
+    "theorems": [MC + t for t in ["C06_cond_under_lock", "C06_inv_lock", "C06_inv_spin", "C06_inv_queue", "C06_hint_partial", "C06_samecond_ring_partial",
+                 "C06_samecond_ring_full_refuted"]],
+    "layers": ["muc", "mux"],
+    "tie": ["NsyncVerif.Proofs.TieConsts"],
+    "oracles": {"cond-under-lock", "muwait-result", "stuck", "steplimit", "panic", "crash", "exclusion", "exclusion-ann", "early-timeout", "bad-cancel", "bad-result"},
+    "plan": {"quick": [("muc", 160, 8), ("muwait", 100, 8)],
+             "thorough": [("muc", 1600, 16), ("muwait", 1000, 16)]},
+    "level_text": "Kernel-checked theorems over the MuC model (mu.c + mu_wait.c statement by statement: condition records, same-condition rings, unlock_slow's scan with condition evaluation, MU_CONDITION / MU_ALL_FALSE hints, timeouts and cancellations, unlock_without_wakeup; any number of threads): every condition is evaluated by a thread that owns a share of the lock or the writer bit (unlock_slow's temporary writer lock), never concurrently with another thread's write critical section, and it is the condition the queue record prescribes with the value the protected data gives (C06_cond_under_lock); the lock / spinlock / queue invariants of the extended model (C06_inv_lock, C06_inv_spin, C06_inv_queue); MU_CONDITION clear implies no queued waiter has a condition (C06_hint_partial); the skip over a same-condition ring passes only waiters whose condition denotes the predicate just found false, given the ring invariant (C06_samecond_ring_partial). Tied to the code by lockstep replay of the muc / muwait families (2..4 waiters drawn from identical / eq-equivalent / different conditions, reader and writer mode, cv waiters, timeouts and cancellations on the same mutex, unlock_without_wakeup) through the MuC acceptor — which checks, on every explored execution, which conditions the scan evaluates, which waiters it wakes and every word value — and by the interpreter's oracles: termination of every waiter whose condition was made true (stuck), no evaluation concurrent with a writer (cond-under-lock).",
+    "level_note": "PARTIAL: the liveness core of the statement — no waiter whose condition is true is left asleep by nsync_mu_unlock (C06_no_missed_cond_full, C06_no_stuck_state_full), the MU_ALL_FALSE half of the hint invariant (C06_hint_full) and the soundness of unlock_without_wakeup (C06_without_wakeup_sound_full) are stated as definitions but NOT proved; they need the ring invariant as an inductive invariant. For these clauses the check decides by lockstep plus the stuck oracle over the explored schedules only. 'Rings are maximal runs' is refuted (C06_samecond_ring_full_refuted) — harmless: the scan only needs soundness of the skip.",
+}
+for k in ("C05", "C06", "C11", "C13"):
+    NOT_YET.pop(k, None)
